@@ -51,9 +51,16 @@ def id_case(rec, cfg, agent, op, which):
     return a, rec.n
 
 
-def case(rec, cfg, agent, op, f):
+def case(rec, cfg, agent, op, f, via="ctor"):
+    """via: "ctor" - the keys are given to the socket's constructor; "set_keys" - the socket is created key-less (as the clients do
+    before engine discovery) and the keys are installed afterwards: whatever the receive path remembers about the session's security
+    level must follow the installation"""
     a = rec.n
-    s = rawdrv.RawSession(rec, cfg)
+    if via == "set_keys":
+        s = rawdrv.RawSession(rec, rawdrv.Cfg("v3", user="", engine=cfg.engine), api_cfg=cfg)
+        s.set_keys(cfg)
+    else:
+        s = rawdrv.RawSession(rec, cfg)
     base = "1.3.6.1.2.1.2.2.1"
     if op == "get":
         w, _ = s.send("get", [base + ".1.0"])
@@ -105,11 +112,12 @@ def run(tier):
         for ci, c in enumerate(cells):
             f = c["forgery"]
             ops = ["get", "get_many", "getnext", "getbulk"] if thorough else [["get", "get_many", "getnext", "getbulk"][(ci + SEED) % 4], "get"]
-            for op in dict.fromkeys(ops):
-                a, b = case(rec, std[cn], agent, op, f)
+            for oi, op in enumerate(dict.fromkeys(ops)):
+                via = "set_keys" if (ci + oi + SEED) % 3 == 0 else "ctor"
+                a, b = case(rec, std[cn], agent, op, f, via)
                 authentic = f["mac"] == "valid" and f["flagAuth"] and f["enc"] == ("ok" if std[cn].priv != "none" else "plain")
-                runs.append((a, b, dict(cfg=cn, op=op, forgery=f, verdict=c["verdict"])))
-                chk.case((cn, op, json.dumps(f, sort_keys=True)), nontrivial=not authentic)
+                runs.append((a, b, dict(cfg=cn, op=op, forgery=f, verdict=c["verdict"], via=via)))
+                chk.case((cn, op, via, json.dumps(f, sort_keys=True)), nontrivial=not authentic)
         # near-miss MACs (otherwise authentic Response): 12 single bits, 66 xor-cancelling pairs, 66 sum-cancelling pairs, rotations, partial MACs
         if len(near) != 12 + 66 + 66 + 4 + 11 + 1 + 11 + 11:
             raise ToolError("near-miss MAC family incomplete: %d" % len(near))
@@ -160,7 +168,8 @@ def run(tier):
             continue
         sig = dict(body=f["pdu"], mac=f["mac"] if not isinstance(f["mac"], dict) else "near:" + f["mac"]["kind"], flagAuth=f["flagAuth"], clear_under_priv=bool(has_priv and f["enc"] == "plain"),
                    undecryptable=f["enc"] == "bad", required=info["verdict"], got="value" if not ev.get("exc") else ev["exc"])
-        chk.violation(sig, "%s %s: reply with mac=%s flagAuth=%s msgData=%s body=%s must be %s; call returned %s" % (info["cfg"], info["op"], f["mac"], f["flagAuth"], f["enc"], f["pdu"],
+        sig["via"] = info.get("via", "ctor")
+        chk.violation(sig, "%s %s (keys installed via %s): reply with mac=%s flagAuth=%s msgData=%s body=%s must be %s; call returned %s" % (info["cfg"], info["op"], sig["via"], f["mac"], f["flagAuth"], f["enc"], f["pdu"],
                       "dropped" if info["verdict"] == "drop" else "delivered", ev.get("exc") or "the forged value"), dict(info=info))
     chk.sample(dict(kind="matrix-cell", cell=runs[7][2]))
     return chk.finish()
@@ -176,7 +185,7 @@ def replay(path):
             print("VIOLATION property=C10 replay=%s" % path)
         return rc
     rec = trace.Recorder("c10-replay")
-    case(rec, scripts.std_cfgs()[info["cfg"]], ag.Agent(), info["op"], info["forgery"])
+    case(rec, scripts.std_cfgs()[info["cfg"]], ag.Agent(), info["op"], info["forgery"], info.get("via", "ctor"))
     v = trace.validate("TraceSession.tla", "TraceSession.cfg", rec.close())
     if v["accepted"] and not v["fails"]:
         print("replay: accepted")
